@@ -104,9 +104,10 @@ def generate():
     caps = [n for n in ast.walk(dr) if isinstance(n, ast.If) and "len(self.buffer) >" in ast.unparse(n.test)]
     if len(caps) != 1 or not any(isinstance(s, ast.Raise) for s in caps[0].body):
         raise P.Untranslatable("dataReceived: header cap changed")
-    m = __import__("re").fullmatch(r"eoh > (\d+) or \(?eoh == -1 and len\(self\.buffer\) > (\d+)\)?", ast.unparse(caps[0].test))
+    m = __import__("re").fullmatch(r"eoh > (\d+) or \(?eoh == -1 and len\(self\.buffer\) >= (\d+) \+ (\d+)\)?", ast.unparse(caps[0].test))
     if not m or m.group(1) != m.group(2):
         raise P.Untranslatable("dataReceived: header cap test is %s" % ast.unparse(caps[0].test))
+    out.append("Definition negotiation_noterm_slack : Z := %s.  (* give up without a terminator once cap + slack bytes are buffered *)" % m.group(3))
     # the find must precede the cap test, the early return must follow it
     body = [ast.unparse(x) for x in ast.walk(dr) if isinstance(x, (ast.Assign, ast.If))]
     finds = [i for i, t in enumerate(body) if t.startswith("eoh = self.buffer.find(b'\\r\\n\\r\\n')")]
